@@ -83,6 +83,7 @@ public:
 
   Iterator find(const T& key) const
   {
+    Item* result = _end.item;
     for(Item* item = root; item; )
     {
       if(key > item->key)
@@ -90,15 +91,15 @@ public:
         item = item->right;
         continue;
       }
-      else if(key < item->key)
+      else
       {
+        if(!(key < item->key))
+          result = item; // remember it, but an equal key further left comes first
         item = item->left;
         continue;
       }
-      else
-        return item;
     }
-    return _end;
+    return result;
   }
 
   bool contains(const T& key) const {return find(key) != _end;}
@@ -109,7 +110,7 @@ public:
     if(it == _end)
       return 0;
     usize count = 1;
-    for(Item* item = it.item->next; item && item->key == key; item = item->next)
+    for(Item* item = it.item->next; item != &endItem && item->key == key; item = item->next)
       ++count;
     return count;
   }
